@@ -127,6 +127,7 @@ class Engine:
         self.abort_paths = True
         self.stop_after = None
         self.stop_fired = False
+        self.opaque = {}
 
     # ------------------------------------------------------------------ utilities
     def oblige(self, kind, st, goal, note="", extra=None, oid=None):
@@ -566,7 +567,12 @@ class Engine:
                 if pytype_name(v) != "bool":
                     raise NeedFork()
                 tv = v if isinstance(v, bool) else v.t
-                tv = z3.BoolVal(tv) if isinstance(tv, bool) else tv
+                if isinstance(tv, bool):
+                    if tv != is_and:
+                        # decisive operand (True in an `or`, False in an `and`): Python stops evaluating here
+                        terms.append(z3.BoolVal(tv))
+                        break
+                    continue  # neutral operand
                 terms.append(tv)
                 guard = tv
         except (NeedFork, Unsupported):
@@ -931,6 +937,14 @@ class Engine:
 
     # ------------------------------------------------------------------ calls
     def ev_Call(self, node, st):
+        if self.opaque:
+            try:
+                ftxt = ast.unparse(node.func)
+            except Exception:
+                ftxt = None
+            if ftxt in self.opaque:
+                return self.opaque_call(ftxt, node, st)
+
         def after_f(fv, s):
             def after_args(args, s2):
                 kwnodes = [k.value for k in node.keywords]
@@ -949,6 +963,41 @@ class Engine:
             return self.bind(self.ev_list(node.args, s), after_args)
 
         return self.bind(self.ev(node.func, st), after_f)
+
+    def opaque_call(self, name, node, st):
+        """a call the contract declares opaque: arguments are evaluated, the call is logged, the result is a fresh value"""
+        spec = self.opaque[name]
+
+        def after_args(args, s2):
+            def after_kw(kwvals, s3):
+                kwargs = {}
+                for k, v in zip(node.keywords, kwvals):
+                    if k.arg is None:
+                        kwargs.update(self.dict_items_concrete(v, s3))
+                    else:
+                        kwargs[k.arg] = v
+                self.opq_ctr = getattr(self, "opq_ctr", 0) + 1
+                tag = "%s#%d" % (name.replace(".", "_"), self.opq_ctr)
+                ret = spec.get("ret", "obj")
+                if ret == "bool":
+                    r = Sym(fresh("r_" + tag, B), "bool")
+                elif ret == "str":
+                    r = Sym(fresh("r_" + tag, S), "str")
+                elif ret == "none":
+                    r = None
+                elif ret == "kwargs-thunk":
+                    r = Native(dict)
+                elif isinstance(ret, tuple) and ret[0] == "obj":
+                    r = Opq(fresh("r_" + tag, Obj), ret[1])
+                else:
+                    r = Opq(fresh("r_" + tag, Obj), None)
+                s3.log.append({"callee": name, "args": list(args), "kwargs": kwargs, "result": r, "effect": bool(spec.get("effect"))})
+                self.assumed.add("opaque call %s: result unconstrained%s" % (name, ", effect logged" if spec.get("effect") else ""))
+                return [(r, s3)]
+
+            return self.bind(self.ev_list([k.value for k in node.keywords], s2), after_kw)
+
+        return self.bind(self.ev_list(node.args, st), after_args)
 
     def dict_items_concrete(self, v, st):
         if isinstance(v, Ref) and isinstance(st.heap[v.oid], HDict):
@@ -996,7 +1045,11 @@ class Engine:
         if isinstance(fv, Const):
             raise Unsupported("call of constant container")
         if isinstance(fv, Opq):
-            raise Unsupported("call of an opaque object")
+            self.opq_ctr = getattr(self, "opq_ctr", 0) + 1
+            r = Opq(fresh("r_call#%d" % self.opq_ctr, Obj), None)
+            st.log.append({"callee": "<method of opaque object>", "args": list(args), "kwargs": dict(kwargs), "result": r, "effect": False, "on": fv})
+            self.assumed.add("method calls on opaque objects: result unconstrained")
+            return [(r, st)]
         return [(Raise(Exc("TypeError", "object is not callable")), st)]
 
     def call_fn(self, fn, args, kwargs, st):
@@ -1447,9 +1500,19 @@ class Engine:
                     else:
                         res.append((kind, val, s))
                 return res
-        h = getattr(self, "with_hook", None)
-        if h is not None:
-            return h(stmt, st)
+        if len(stmt.items) == 1 and self.opaque:
+            it = stmt.items[0]
+
+            def after_cm(cm, s):
+                if not isinstance(cm, Opq):
+                    raise Unsupported("with over a non-opaque context manager")
+                if it.optional_vars is not None:
+                    for k, _, s2 in self.assign(it.optional_vars, cm, s):
+                        pass
+                self.assumed.add("`with <opaque>`: __enter__ returns the object, __exit__ does not swallow exceptions")
+                return self.exec_block(stmt.body, s)
+
+            return self._expr_to_stmt(self.ev(it.context_expr, st), after_cm)
         raise Unsupported("with statement")
 
     def ex_Try(self, stmt, st):
